@@ -5,10 +5,12 @@ from impl import *  # noqa
 from twisted.internet import task
 
 ID = "C19"
-PROOF_MODULES = ["VncProofs.C19", "VncProofs.C19Sys"]
+PROOF_MODULES = ["VncProofs.C19", "VncProofs.C19Sys", "VncProofs.C19Unique"]
 THEOREMS = ["Vnc.C19_parse_encode", "Vnc.C19_parse_stream", "Vnc.C19_step", "Vnc.C19_stream", "Vnc.C19_paste",
             "Vnc.C19_latin1_length", "Vnc.C19_setencodings_split", "Vnc.C19_sizes", "Vnc.C19_out_of_range_atomic",
-            "Vnc.C19_pf_roundtrip", "Vnc.C19_sys_writes", "Vnc.C19_sys_stream", "Vnc.C19_no_protocol_writes"]
+            "Vnc.C19_pf_roundtrip", "Vnc.C19_sys_writes", "Vnc.C19_sys_stream", "Vnc.C19_no_protocol_writes",
+            "Vnc.C19_prefix_free", "Vnc.C19_encode_inj", "Vnc.C19_not_proper_prefix", "Vnc.C19_stream_unique",
+            "Vnc.C19_stream_reading_unique"]
 TRUSTED = [
     "Lean 4.33 kernel; standard axioms only",
     "VncModel/Wire.lean + LibOps.lean are tied to the serialisers of rfb.py and the writing operations of client.py by this correspondence run (byte-exact, per transport.write)",
